@@ -1179,24 +1179,26 @@ func c27(r *engine.Run) {
 		fmt.Sprintf("API-set configurations: %s", map[bool]string{true: "all 2^7 for every route", false: "per route all subsets of its own sets, each with and without one foreign set"}[r.Thorough()]),
 	)
 	sort.Slice(hashes, func(i, j int) bool { return hashes[i] < hashes[j] })
+	nodePath := c27NodePath(r, g, engine.NewCounter())
 	r.Finish(engine.Coverage{
-		"evaluations":            tot.Evals,
-		"distinct_nontrivial":    tot.Nontrivial,
-		"rule":                   "requests (each a distinct (route, method, API-set configuration, csrf/header/auth flags, token, Host, Origin/Referer, credentials, Content-Type) tuple, evaluated once) for which at least one access-control condition of the reference predicate fails",
-		"exhaustive":             true,
-		"samples":                tot.Samples,
-		"outcome_histogram":      map[string]interface{}{"reached": tot.Reached, "refused": tot.Refused, "status": tot.Status},
-		"expected_first_failing": tot.Layer,
-		"failing_layer_classes":  len(tot.Classes),
-		"first_layer_agreement":  map[string]int64{"refused_with_status_of_outermost_failing_layer": tot.FirstLayerOK, "refused_with_status_of_another_failing_layer": tot.FirstLayerOff},
-		"dont_care":              tot.DontCare,
-		"mux_configurations":     tot.Configs,
-		"tokens_issued_by_node":  tot.TokenIssues,
-		"gateway_methods_called": len(tot.GatewayCalls),
-		"gateway_methods_total":  api.VerifGatewayMethods,
-		"served_route_methods":   servedRM,
-		"multi_layer_bypasses":   map[string]int{"distinct": len(tot.Multi), "explained_by_single_layer_findings": explained},
-		"route_table":            map[string]interface{}{"golden_routes": len(g.Routes), "code_routes": len(code), "differences": tableDiffs, "source": src, "mux_patterns": len(pats), "readme_notes": g.ReadmeNotes},
+		"node_configuration_path": nodePath,
+		"evaluations":             tot.Evals,
+		"distinct_nontrivial":     tot.Nontrivial,
+		"rule":                    "requests (each a distinct (route, method, API-set configuration, csrf/header/auth flags, token, Host, Origin/Referer, credentials, Content-Type) tuple, evaluated once) for which at least one access-control condition of the reference predicate fails",
+		"exhaustive":              true,
+		"samples":                 tot.Samples,
+		"outcome_histogram":       map[string]interface{}{"reached": tot.Reached, "refused": tot.Refused, "status": tot.Status},
+		"expected_first_failing":  tot.Layer,
+		"failing_layer_classes":   len(tot.Classes),
+		"first_layer_agreement":   map[string]int64{"refused_with_status_of_outermost_failing_layer": tot.FirstLayerOK, "refused_with_status_of_another_failing_layer": tot.FirstLayerOff},
+		"dont_care":               tot.DontCare,
+		"mux_configurations":      tot.Configs,
+		"tokens_issued_by_node":   tot.TokenIssues,
+		"gateway_methods_called":  len(tot.GatewayCalls),
+		"gateway_methods_total":   api.VerifGatewayMethods,
+		"served_route_methods":    servedRM,
+		"multi_layer_bypasses":    map[string]int{"distinct": len(tot.Multi), "explained_by_single_layer_findings": explained},
+		"route_table":             map[string]interface{}{"golden_routes": len(g.Routes), "code_routes": len(code), "differences": tableDiffs, "source": src, "mux_patterns": len(pats), "readme_notes": g.ReadmeNotes},
 		"alphabet": map[string]interface{}{"methods": len(c27Methods), "routes": len(g.Routes), "api_set_masks": len(plan) / 8,
 			"token_classes": len(tokenVars(true, true, "POST")), "hosts_base": len(hostVars(true, false)), "hosts_rich": len(hostVars(true, true)),
 			"origin_referer_base": len(originVars(true, false)), "origin_referer_rich": len(originVars(true, true)),
